@@ -34,7 +34,7 @@ def sim_cases():
 
 
 def execute_sim(case):
-    sig, detail, labels, sim = run_case(case, {'c01'})
+    sig, detail, labels, sim = run_case(case, {'c01'}, prop='C01')
     njobs = len(sim.jobs)
     nontrivial = njobs >= 2 and bool(labels & FAULT_LABELS)
     if sig:
